@@ -48,7 +48,7 @@ type IndexColumn struct {
 
 func newSchema(table string, master []sqliteMaster) (*Schema, error) {
 	var createSQL string
-	n := strings.ToLower(table)
+	n := sql.ToLower(table)
 	for _, m := range master {
 		if m.typ == "table" && m.name == n {
 			createSQL = m.sql
@@ -378,10 +378,10 @@ func sameIndexColumns(a, b []IndexColumn) bool {
 		if c == "" {
 			return "binary"
 		}
-		return strings.ToLower(c)
+		return sql.ToLower(c)
 	}
 	for i := range a {
-		if !strings.EqualFold(a[i].Column, b[i].Column) ||
+		if !sql.EqualFold(a[i].Column, b[i].Column) ||
 			a[i].Expression != b[i].Expression ||
 			norm(a[i].Collate) != norm(b[i].Collate) {
 			return false
@@ -392,9 +392,9 @@ func sameIndexColumns(a, b []IndexColumn) bool {
 
 // Returns the index of the named column, or -1.
 func (st *Schema) Column(name string) int {
-	u := strings.ToLower(name)
+	u := sql.ToLower(name)
 	for i, col := range st.Columns {
-		if strings.ToLower(col.Column) == u {
+		if sql.ToLower(col.Column) == u {
 			return i
 		}
 	}
@@ -411,9 +411,9 @@ func (st *Schema) column(name string) *TableColumn {
 
 // NamedIndex returns the index with the name (case insensitive)
 func (st *Schema) NamedIndex(name string) *SchemaIndex {
-	u := strings.ToUpper(name)
+	u := sql.ToUpper(name)
 	for i, ind := range st.Indexes {
-		if strings.ToUpper(ind.Index) == u {
+		if sql.ToUpper(ind.Index) == u {
 			return &st.Indexes[i]
 		}
 	}
@@ -422,9 +422,9 @@ func (st *Schema) NamedIndex(name string) *SchemaIndex {
 
 // Returns the index of the named column, or -1.
 func (si *SchemaIndex) Column(name string) int {
-	u := strings.ToUpper(name)
+	u := sql.ToUpper(name)
 	for i, col := range si.Columns {
-		if strings.ToUpper(col.Column) == u {
+		if sql.ToUpper(col.Column) == u {
 			return i
 		}
 	}
@@ -445,7 +445,7 @@ func (si *SchemaIndex) Column(name string) int {
 // all values will be null.
 // See https://sqlite.org/lang_createtable.html#rowid
 func isRowid(tableConstraint bool, typ string, dir sql.SortOrder) bool {
-	if strings.ToUpper(typ) != "INTEGER" {
+	if sql.ToUpper(typ) != "INTEGER" {
 		return false
 	}
 	return tableConstraint || dir == sql.Asc
@@ -464,7 +464,7 @@ func applyAffinity(typ string, v interface{}) interface{} {
 			v = int64(1)
 		}
 	}
-	t := strings.ToUpper(typ)
+	t := sql.ToUpper(typ)
 	has := func(subs ...string) bool {
 		for _, s := range subs {
 			if strings.Contains(t, s) {
